@@ -95,30 +95,6 @@ theorem po_spelling_invariant_of_load_spells_view {Lines Cat F V σ τ : Type}
 
 /-! ## 3. transcoding -/
 
-/-- a stage that treats related states alike and prints identical tags -/
-abbrev Exact {σ₁ σ₂ τ : Type} (R : σ₁ → σ₂ → Prop) (st1 : Stage σ₁ τ) (st2 : Stage σ₂ τ) : Prop :=
-  Respects R (fun _ => true) st1 st2
-
-theorem exact_respects {σ₁ σ₂ τ : Type} (R : σ₁ → σ₂ → Prop) (keep : τ → Bool) (st1 : Stage σ₁ τ) (st2 : Stage σ₂ τ)
-    (h : Exact R st1 st2) : Respects R keep st1 st2 := by
-  intro s s' hR
-  obtain ⟨a, b, c⟩ := h s s' hR
-  refine ⟨a, ?_, c⟩
-  have ft : ∀ l : List τ, l.filter (fun _ => true) = l := fun l => List.filter_eq_self.mpr (by simp)
-  rw [ft, ft] at b
-  rw [b]
-
-theorem respectsAll_append {σ₁ σ₂ τ : Type} (R : σ₁ → σ₂ → Prop) (keep : τ → Bool)
-    {a1 b1 : List (Stage σ₁ τ)} {a2 b2 : List (Stage σ₂ τ)}
-    (ha : RespectsAll R keep a1 a2) (hb : RespectsAll R keep b1 b2) : RespectsAll R keep (a1 ++ b1) (a2 ++ b2) := by
-  induction ha with
-  | nil => exact hb
-  | cons h _ ih => exact .cons h ih
-
-theorem respectsAll_of_exact {σ τ : Type} (R : σ → σ → Prop) (keep : τ → Bool) (l : List (Stage σ τ))
-    (h : ∀ st ∈ l, Exact R st st) : RespectsAll R keep l l :=
-  respectsAll_self R keep l (fun st hm => exact_respects R keep st st (h st hm))
-
 /-- **Transcoding.**  Two files whose loaded forms are related by `Rf` (the same catalog, the charset name in the
     Content-Type field aside) and whose `ctx` are then related by `R` (equal apart from the charset name and the value of
     `ctx.encoding`, both not `None`): if every stage before and after `check_mime` maps related states to related states
